@@ -38,6 +38,44 @@ type cTok struct {
 	V string `json:"v"`
 }
 
+// Token values may hold bytes that are not UTF-8; JSON text would replace them, so such values travel as base64.
+func (t cTok) MarshalJSON() ([]byte, error) {
+	type plain struct {
+		K  string `json:"k"`
+		S  int    `json:"s"`
+		E  int    `json:"e"`
+		V  string `json:"v"`
+		VB string `json:"vb,omitempty"`
+	}
+	p := plain{K: t.K, S: t.S, E: t.E, V: t.V}
+	if !utf8.ValidString(t.V) {
+		p.VB = base64.StdEncoding.EncodeToString([]byte(t.V))
+	}
+	return json.Marshal(p)
+}
+
+func (t *cTok) UnmarshalJSON(b []byte) error {
+	var p struct {
+		K  string `json:"k"`
+		S  int    `json:"s"`
+		E  int    `json:"e"`
+		V  string `json:"v"`
+		VB string `json:"vb"`
+	}
+	if err := json.Unmarshal(b, &p); err != nil {
+		return err
+	}
+	t.K, t.S, t.E, t.V = p.K, p.S, p.E, p.V
+	if p.VB != "" {
+		raw, err := base64.StdEncoding.DecodeString(p.VB)
+		if err != nil {
+			return err
+		}
+		t.V = string(raw)
+	}
+	return nil
+}
+
 func kindName(k parser.TokenKind) string {
 	return strings.TrimPrefix(k.String(), "Token")
 }
